@@ -261,7 +261,7 @@ pub fn run(ctx: &Ctx, st: &mut Stats) -> Vec<Violation> {
     if !v.is_empty() {
         return v;
     }
-    v.extend(run_proptest(ctx, st, "frames", ctx.cases(200_000, 2_000_000), strategy, check));
+    v.extend(run_proptest(ctx, st, "frames", ctx.cases(200_000, 10_000_000), strategy, check));
     if !v.is_empty() || ctx.quick() {
         return v;
     }
